@@ -171,6 +171,11 @@ Judge(C, s, ev, r, prevchk) ==
                  LAMBDA n : <<"C07.outlay", n, ChkEq(ev.rows.outl[n], post.outl[n], D)>>)
         \o (IF C.bidoffer THEN ForNodes(C, LAMBDA n : IsSec(C, n),
                  LAMBDA n : <<"C07.bidoffer", n, ChkEq(ev.rows.bop[n], post.bop[n], D)>>)
+              \o ForNodes(C, LAMBDA n : IsStrat(C, n),
+                 LAMBDA n : <<"C07.bidoffer", n,
+                    ChkEq(ev.rows.bop[n],
+                          RSumSeq([i \in 1..C.N |-> IF IsSec(C, i) /\ InSubtree(C, i, n)
+                                                    THEN post.bop[i] ELSE Zero]), D)>>)
             ELSE <<>>)
         \* C07: the ledger identity on the recorded rows themselves
         \o ForNodes(C, LAMBDA n : IsStrat(C, n),
@@ -189,6 +194,9 @@ Judge(C, s, ev, r, prevchk) ==
                   (IF post.t = s.t THEN ev.chknow = prevchk ELSE ev.chkprev = prevchk))>>>>
         \o (IF ev.op = "update" /\ ev.date = s.t /\ s.fresh
             THEN <<<<"C08.idempotent", 1, ChkBool(ev.same)>>>> ELSE <<>>)
+        \* paired run: the same history with redundant updates / reads inserted
+        \* elsewhere observes exactly what the base run observed after this call
+        \o <<<<"C08.variant", 1, ChkBool(ev.eqbase)>>>>
         \* C16
         \o (IF post.bankrupt THEN ForNodes(C, LAMBDA n : IsSec(C, n),
                  LAMBDA n : <<"C16.liquidated", n,
